@@ -174,12 +174,14 @@ def run_case(case):
 
 def main():
     inp = json.load(sys.stdin)
+    real_stdout = sys.stdout
+    sys.stdout = sys.stderr          # the library prints diagnostics; keep the JSON channel clean
     results, oracle = [], []
     for case in inp["cases"]:
         r, o = run_case(case)
         results.append(r)
         oracle.append(o)
-    json.dump({"results": results, "oracle": oracle}, sys.stdout)
+    json.dump({"results": results, "oracle": oracle}, real_stdout)
 
 
 if __name__ == "__main__":
